@@ -498,7 +498,7 @@ def exhaustive_cases(maxL, depth):
     """capacities 1..maxL x every content over {a,b} x every operation x arguments in 0..L+2 u {npos};
     depth 0: sources from a fixed small family, two-position overloads with the second pair from {0,1,npos}"""
     cases = []
-    srcs = [b"", b"a", b"b", b"ab", b"ba", b"aab", b"abab"]
+    srcs = [b"", b"a", b"ab", b"ba"] if depth == 0 else [b"", b"a", b"b", b"ab", b"ba", b"aab", b"abab"]
     for L in range(1, maxL + 1):
         nums = [str(i) for i in range(0, L + 3)] + ["npos"]
         few = ["0", "1", "npos"] if depth == 0 else nums
@@ -641,7 +641,7 @@ def _with_sources(body, k):
 
 def generate(prop, tier, seed, scale=1):
     rng = random.Random("%s-%s" % (prop, seed))
-    n = (900 if tier == "quick" else 40000) * scale
+    n = (700 if tier == "quick" else 30000) * scale
     cases = []
     for i in range(n):
         # C11 wants mostly in-domain arguments, C10 wants the hostile ones too
